@@ -685,6 +685,21 @@ def cases_A(tier, seed):
     for e in range(4, emax + 1):
         for m in (2 ** e - 1, 2 ** e, 2 ** e + 1):
             shapes.append(('binary_mapping', [1, m], False))
+    # graphs with two-digit vertices and neighbourhoods such as {6, 8}, {9, 11}
+    # (sets of small integers iterate in increasing order only below 8)
+    cyc12 = [[i, i % 12 + 1] for i in range(1, 13)]
+    cyc12 = [sorted(e) for e in cyc12]
+    path13 = [[i, i + 1] for i in range(1, 13)]
+    grid34 = [[4 * r + c + 1, 4 * r + c + 2] for r in range(3) for c in range(3)] + \
+             [[4 * r + c + 1, 4 * r + c + 5] for r in range(2) for c in range(4)]
+    jump = [[1, 9], [1, 16], [7, 8], [6, 7], [7, 16], [8, 10], [9, 11], [9, 10], [3, 12], [12, 13], [12, 11]]
+    for nm_, n_, es_ in (('cyc', 12, cyc12), ('path', 13, path13), ('grid', 12, grid34), ('jump', 16, jump)):
+        shapes.append(('graph_edges', [n_, es_], True))
+        for sortby in ('pred', 'succ'):
+            shapes.append(('digraph_edges', [n_, es_ + [[b_, a_] for (a_, b_) in es_[::3]], sortby], True))
+    bip_ = [[1, 9], [1, 16], [2, 8], [2, 6], [2, 16], [3, 10], [3, 8], [3, 1], [3, 12], [3, 11]]
+    for kind in BIP_KINDS:
+        shapes.append((kind, [3, 16, bip_], True))
     # a few mid-size shapes rotated by the seed (never the core)
     extra = [('block', [5, 4]), ('block', [2, 7, 3]), ('block', [6]), ('block', [4, 1, 5]),
              ('words', [6, 2]), ('permutations', [6, 3]), ('combinations', [7, 3]),
